@@ -6,19 +6,49 @@ from common import rel, dyadic
 
 TRUSTED_BASE = [
     "numpy.roots / numpy.poly / scipy.signal.deconvolve (used by poly2lsf / lsf2poly) are parameters: the LSF clauses "
-    "are evaluated by the oracle only",
+    "are evaluated by the oracle only (against the definition: the sum / difference polynomials of a vanish at e^{i w_j}, and against "
+    "an independent product-of-quadratic-factors construction of lsf2poly)",
     "numpy tanh/arctanh/sin/arcsin: the Lean theorems are about Real.tanh/artanh/sin/arcsin",
-    "exact mode: reflection coefficients are dyadic rationals of modulus <= 0.98; model in exact Gaussian rationals, "
-    "compared at rtol 1e-9 (orders <= 16)",
+    "exact mode: reflection coefficients are doubles (dyadic rationals) of modulus <= 0.98; model in exact Gaussian rationals, "
+    "compared at rtol 1e-9 when r0/e < 1e2 and at rtol 1e-11 * 10^N for r0/e in (10^(N-1), 10^N] (kinds `...@cN`, N = 3..8; "
+    "ac2poly: max(1e-7, 1e-10 * 10^N)): the step-down recursion and the Levinson recursion in double precision lose "
+    "about (r0/e) * 1e-13 relative accuracy (measured: <= 3e-13 * r0/e, ac2poly <= 2e-12 * r0/e); rc2poly / levdown (well conditioned) "
+    "always at 1e-9",
+    "numpy.linalg.solve on the symmetric Toeplitz normal equations is the independent reference of the integer-autocorrelation "
+    "cases (kind acint)",
 ]
 PARTIAL = ["interlacing of the zeros of the sum and difference polynomials (the order in which P- and Q-angles alternate) is not proved; "
            "proved for real minimum-phase polynomials (all |k_i| < 1): every zero of both polynomials lies on the unit circle, is simple, "
-           "the two have no common zero, and relative to the roots contract the sorted positive angles are p distinct values in (0, pi)",
+           "the two have no common zero, and relative to the roots contract the sorted positive angles are p distinct values in (0, pi); "
+           "the alternation itself (smallest angle a zero of the sum polynomial, then alternately) is evaluated by the oracle on every "
+           "real case and on every independent LSF vector",
            "poly <-> lsf inverse pair: proved relative to the numpy.roots / numpy.poly contract only (C11.lsf_roundtrip_algebra; the zero "
-           "remainder of deconvolve is proved: lsf_deflation_exists); the root finding itself is a parameter"]
-ASSUMPTIONS = ["domain: |k_i| <= 0.98, orders 1..16"]
-RULE = ("random reflection-coefficient sets (real and complex, dyadic, |k| <= 0.98), order 1..16, zero-lag r0 > 0; every "
-        "conversion and composition; non-trivial = order >= 2")
+           "remainder of deconvolve is proved: lsf_deflation_exists); the root finding itself is a parameter; both directions "
+           "(lsf2poly o poly2lsf on polynomials, poly2lsf o lsf2poly on independent increasing angle vectors) are evaluated by the oracle"]
+ASSUMPTIONS = ["domain: |k_i| <= 0.98, orders 1..16, and the conditioning predicate e/r0 = prod(1 - |k_i|^2) >= 1e-8 (computed in double "
+               "precision from k in the generator; parameter sets that fail it are generated, counted in the tag `cond-dropped` and not "
+               "evaluated): the conversions are exact-arithmetic inverse pairs, in floating point the step-down / Levinson directions have "
+               "condition number ~ r0/e, so that outside this domain (e.g. all |k_i| ~ 0.97 at order >= 9, e/r0 ~ 1e-12) rc2ac returns "
+               "numbers unrelated to the exact result and poly2lsf can raise; this is double-precision conditioning, outside the model",
+               "value tolerances of the conditioned directions (poly2rc, rc2ac, ac2poly, ac2rc, poly2ac) are 1e-8 * max(1, (r0/e)/20), "
+               "final errors are compared relative to e (not to r0); the well-conditioned quantities (step-up polynomial and error, "
+               "ac2poly vs rc2poly o ac2rc, LSF round trips, lar / is maps) have fixed tolerances",
+               "independent LSF vectors (kind lsfinv): sorted angles in (0.02, pi - 0.02) with gaps >= 1e-3 whose polynomial has "
+               "reflection coefficients inside the domain above (computed by the generator's own step-down recursion); others are counted "
+               "in `lsfinv-dropped` and not evaluated",
+               "integer autocorrelations (kind acint): real symmetric Toeplitz matrix positive definite (smallest eigenvalue >= 0.02 R[0]) with "
+               "reflection coefficients inside "
+               "the domain above (computed by the generator with numpy.linalg.solve)",
+               "input forms (list, negative stride, stride 2, complex dtype holding real values): the result must equal the result on the "
+               "contiguous float64 / complex128 array within 5e-10 * r0/e (rounding-level differences of the scalar types, amplified by the "
+               "conditioning); rc2poly(k) without r0 is only required to return the same polynomial (its final error is then 0 by convention)",
+               "single-precision inputs (float32 / complex64) are evaluated only when r0/e <= 1e2, at tolerance "
+               "2e-6 * prod((1 + |k_i|) / (1 - |k_i|)) (the amplification bound of the Levinson / step-down recursions, >= r0/e) "
+               "against the double-precision call on the same (rounded) values"]
+RULE = ("random reflection-coefficient sets (real and complex, dyadic, |k| <= 0.98; a share with all moduli >= 0.625), order 1..16, "
+        "zero-lag r0 > 0, filtered by e/r0 >= 1e-8; constant-modulus sets v * (all +, all -, alternating) * e^{i theta}, "
+        "v in {0.9375, 0.96875}, at every order inside the domain; all-zero and partly-zero sets; every conversion and composition, "
+        "every input container / dtype / stride form; independent LSF vectors; integer autocorrelations; non-trivial = order >= 2")
 
 
 def _lp():
@@ -28,6 +58,46 @@ def _lp():
 
 def c(v):
     return np.asarray(v).astype(complex).ravel()
+
+
+# --- the conditioning domain -------------------------------------------------------------------------
+
+COND_MAX = 1e8      # r0/e = 1 / prod(1 - |k_i|^2) <= 1e8   <=>   e/r0 >= 1e-8
+
+
+def _ratio(k):
+    """e/r0 = prod(1 - |k_i|^2), in double precision"""
+    return float(np.prod(1.0 - np.abs(np.asarray(k)) ** 2))
+
+
+def in_domain(k):
+    k = np.asarray(k)
+    return bool(np.all(np.abs(k) <= 0.98)) and _ratio(k) * COND_MAX >= 1.0
+
+
+def _cond(k):
+    return 1.0 / _ratio(k)
+
+
+def _tol(k, base=1e-8):
+    """tolerance of the conditioned directions (step-down, Levinson): base * max(1, (r0/e)/20)"""
+    return base * max(1.0, _cond(k) / 20.0)
+
+
+COND_KINDS = ("poly2rc", "poly2ac", "rc2ac", "ac2poly")
+
+
+def _cls(kind, k):
+    """model-correspondence kind of a conditioned conversion: the kind itself when r0/e < 1e2, else kind@cN, 10^(N-1) < r0/e <= 10^N"""
+    if kind not in COND_KINDS:
+        return kind
+    cnd = _cond(k)
+    if cnd < 1e2:
+        return kind
+    n = 3
+    while cnd > 10.0 ** n and n < 8:
+        n += 1
+    return "%s@c%d" % (kind, n)
 
 
 # --- model correspondences (exact mode) ------------------------------------------------------------
@@ -112,6 +182,71 @@ def model_levdown(p):
     return ("Q", proto.request("levdown", "Q", [], [a[1:]]))
 
 
+# --- independent references (numpy formulas written here) --------------------------------------------
+
+def _ref_lsf2poly(w):
+    """prediction polynomial with line spectral frequencies w, from real quadratic factors 1 - 2 cos(w_j) z^-1 + z^-2: the angles of
+    even index (0, 2, ...) are zeros of the sum polynomial Q1 = A + z^-(p+1) A(1/z), those of odd index of the difference polynomial
+    P1; trivial zeros z = -1 (Q1, even order), z = 1 (P1, even order), z = +-1 (P1, odd order); A = (P1 + Q1) / 2"""
+    w = np.asarray(w, dtype=float)
+    Q = np.array([1.0])
+    P = np.array([1.0])
+    for j, x in enumerate(w):
+        f = np.array([1.0, -2.0 * np.cos(x), 1.0])
+        if j % 2 == 0:
+            Q = np.convolve(Q, f)
+        else:
+            P = np.convolve(P, f)
+    if len(w) % 2:
+        P = np.convolve(P, [1.0, 0.0, -1.0])
+    else:
+        P = np.convolve(P, [1.0, -1.0])
+        Q = np.convolve(Q, [1.0, 1.0])
+    return (0.5 * (P + Q))[:-1]
+
+
+def _ref_stepdown(a):
+    """reflection coefficients of a real polynomial [1, a_1..a_p] by the step-down recursion (None if some |k| >= 1)"""
+    a = np.asarray(a, dtype=float)
+    ks = []
+    while len(a) > 1:
+        kk = a[-1]
+        if not abs(kk) < 1:
+            return None
+        ks.append(kk)
+        a = ((a - kk * a[::-1]) / (1.0 - kk * kk))[:-1]
+    return np.array(ks[::-1])
+
+
+def _lsf_definition(a, w):
+    """largest |Q1(e^{i w_j})| (j even) / |P1(e^{i w_j})| (j odd), relative to the l1 norm of the coefficients: zero iff w are the
+    line spectral frequencies of a, alternating between the sum and the difference polynomial starting with the sum polynomial"""
+    a1 = np.concatenate((np.asarray(a, dtype=float), [0.0]))
+    P1 = a1 - a1[::-1]
+    Q1 = a1 + a1[::-1]
+    z = np.exp(1j * np.asarray(w, dtype=float))
+    worst = 0.0
+    for j, zz in enumerate(z):
+        pol = Q1 if j % 2 == 0 else P1
+        worst = max(worst, abs(np.polyval(pol, zz)) / np.sum(np.abs(pol)))
+    return worst
+
+
+def _normal_equations(a, e, R):
+    """residual of the normal equations sum_j a_j R(i-j) = e [i = 0], i = 0..p, R(-m) = conj(R(m)), relative to |R(0)| * sum |a_j|"""
+    a = c(a)
+    R = c(R)
+    n = len(a)
+    worst = 0.0
+    for i in range(n):
+        acc = 0.0
+        for j in range(n):
+            m = i - j
+            acc = acc + a[j] * (R[m] if m >= 0 else np.conj(R[-m]))
+        worst = max(worst, abs(acc - (e if i == 0 else 0.0)))
+    return worst / (abs(R[0]) * float(np.sum(np.abs(a))))
+
+
 # --- property oracle: inverse pairs and commuting squares -------------------------------------------
 
 def oracle_all(p):
@@ -120,35 +255,43 @@ def oracle_all(p):
     r0 = p["r0"]
     cplx = np.iscomplexobj(k)
     out = []
-    tol = 1e-8
+    if not in_domain(k):
+        return ["harness: parameter set outside the stated domain (e/r0 = %.2e)" % _ratio(k)]
+    tol = _tol(k)                       # conditioned directions: 1e-8 * max(1, (r0/e) / 20)
     a, e = lp.rc2poly(k, r0)
     a = np.asarray(a)
     if len(a) != len(k) + 1 or a[0] != 1:
         out.append("rc2poly: wrong length / leading coefficient")
     e_exp = r0 * np.prod(1 - np.abs(k) ** 2)
-    if abs(e - e_exp) > tol * r0:
+    if not abs(e - e_exp) <= 1e-11 * abs(e_exp):
         out.append("rc2poly final error %r != r0*prod(1-|k|^2) = %r" % (e, e_exp))
     k2 = np.asarray(lp.poly2rc(a, e))
     if rel(c(k2), c(k)) > tol:
         out.append("poly2rc(rc2poly(k)) != k  (order %d, %s): %.2e" % (len(k), "complex" if cplx else "real", rel(c(k2), c(k))))
     R = np.asarray(lp.rc2ac(k, r0))
-    if len(R) != len(k) + 1 or abs(R[0] - r0) > tol * r0:
+    if len(R) != len(k) + 1 or not abs(R[0] - r0) <= tol * r0:
         out.append("rc2ac: wrong length or R[0] != r0")
+    else:
+        ne = _normal_equations(a, e, R)
+        if not ne <= tol:
+            out.append("rc2ac(k, r0) and rc2poly(k, r0) do not satisfy the normal equations sum_j a_j R(i-j) = e [i=0]: %.2e" % ne)
     R3 = np.asarray(lp.poly2ac(a, e))
     if rel(c(R3), c(R)) > tol:
         out.append("poly2ac(rc2poly(k)) != rc2ac(k)")
     Rin = R if cplx else np.real(R)
     try:
         a2, e2 = lp.ac2poly(Rin)
-        if rel(c(a2), c(a)) > tol or abs(e2 - e) > tol * r0:
-            out.append("ac2poly(rc2ac(k)) != rc2poly(k) (order %d): %.2e" % (len(k), rel(c(a2), c(a))))
+        if rel(c(a2), c(a)) > tol or not abs(e2 - e) <= tol * abs(e):
+            out.append("ac2poly(rc2ac(k)) != rc2poly(k) (order %d): %.2e, final error %r vs %r" % (len(k), rel(c(a2), c(a)), e2, e))
         k3, r03 = lp.ac2rc(Rin)
-        if rel(c(k3), c(k)) > tol or abs(r03 - r0) > tol * r0:
+        if rel(c(k3), c(k)) > tol or not abs(r03 - r0) <= tol * r0:
             out.append("ac2rc(rc2ac(k)) != (k, r0) (order %d): %.2e" % (len(k), rel(c(k3), c(k))))
-        # commuting: ac->poly equals ac->rc->poly
+        # commuting: ac->poly equals ac->rc->poly (polynomial and final error; both well conditioned given the same k3)
         a4, e4 = lp.rc2poly(k3, r03)
-        if rel(c(a4), c(a2)) > tol:
-            out.append("ac2poly != rc2poly o ac2rc")
+        if rel(c(a4), c(a2)) > 1e-12:
+            out.append("ac2poly != rc2poly o ac2rc: %.2e" % rel(c(a4), c(a2)))
+        if not abs(e4 - e2) <= 1e-12 * abs(e2):
+            out.append("final error of ac2poly %r != final error of rc2poly o ac2rc %r" % (e2, e4))
         # ac -> poly -> ac
         R5 = np.asarray(lp.poly2ac(np.asarray(a2), e2))
         if rel(c(R5), c(R)) > tol:
@@ -177,17 +320,251 @@ def oracle_all(p):
                     out.append("%s accepted |k| >= 1" % fn.__name__)
                 except ValueError:
                     pass
-        # line spectral frequencies
-        if len(k) <= 12:
+        # line spectral frequencies (every order 1..16 inside the conditioning domain)
+        try:
             lsf = np.asarray(lp.poly2lsf(a))
+        except Exception as ex:
+            out.append("poly2lsf raised %r on a minimum-phase polynomial of order %d" % (ex, len(k)))
+            lsf = None
+        if lsf is not None:
             if len(lsf) != len(k):
                 out.append("poly2lsf returned %d frequencies for order %d" % (len(lsf), len(k)))
             else:
                 if not (np.all(np.diff(lsf) > 0) and lsf.min() > 0 and lsf.max() < np.pi):
                     out.append("LSFs not strictly increasing inside (0, pi): %s" % np.round(lsf, 4))
+                d = _lsf_definition(a, lsf)
+                if not d <= LSF_DEF_TOL:
+                    out.append("poly2lsf(a): the sum / difference polynomials of a do not vanish alternately at e^{i lsf_j} "
+                               "(order %d): %.2e" % (len(k), d))
                 a6 = np.asarray(lp.lsf2poly(lsf))
-                if rel(c(a6), c(a)) > 1e-6:
+                if not rel(c(a6), c(a)) <= 1e-9:
                     out.append("lsf2poly(poly2lsf(a)) != a (order %d): %.2e" % (len(k), rel(c(a6), c(a))))
+    return out
+
+
+LSF_DEF_TOL = 1e-9
+
+
+# --- input forms: containers, strides, dtypes ------------------------------------------------------------
+
+def _forms_of(x):
+    """(name, object handed to the library, ndarray the result must equal the result of, single precision?)"""
+    x = np.ascontiguousarray(x)
+    buf = np.empty(2 * x.size, dtype=x.dtype)
+    buf[1::2] = 7.25e3              # neighbouring memory holds other (finite) numbers
+    buf[::2] = x
+    out = [("list", x.tolist(), x, False),
+           ("negstride", x[::-1].copy()[::-1], x, False),
+           ("stride2", buf[::2], x, False)]
+    if np.iscomplexobj(x):
+        x32 = x.astype(np.complex64)
+    else:
+        out.append(("complex", x.astype(complex), x, False))
+        x32 = x.astype(np.float32)
+    out.append(("single", x32, x32.astype(x.dtype), True))
+    return out
+
+
+def _outs(r):
+    """library return value -> list of complex vectors"""
+    if isinstance(r, tuple):
+        return [c(v) for v in r]
+    return [c(r)]
+
+
+def oracle_forms(p):
+    """every converter on a list, a negative-stride view, a stride-2 view, a complex array holding real values and a single-precision
+    array returns what it returns on the float64 / complex128 ndarray; the input is left unchanged; default / integer / complex r0"""
+    lp = _lp()
+    k = np.asarray(p["k"])
+    r0 = p["r0"]
+    cplx = np.iscomplexobj(k)
+    if not in_domain(k):
+        return ["harness: parameter set outside the stated domain (e/r0 = %.2e)" % _ratio(k)]
+    cnd = _cond(k)
+    tol = _tol(k)
+    tolf = 5e-10 * cnd                      # same numbers in another container: rounding-level differences, amplified like r0/e
+    # single precision (evaluated for r0/e <= 1e2 only): 2e-6 times Cybenko's amplification bound of the Levinson / step-down
+    # recursions, prod (1 + |k_i|) / (1 - |k_i|)  (>= r0/e; measured: error <= 5e-8 times this bound)
+    tol32 = 2e-6 * max(1.0, float(np.prod((1 + np.abs(k)) / (1 - np.abs(k)))))
+    out = []
+    a, e = lp.rc2poly(k, r0)
+    a = np.asarray(a)
+    R = np.asarray(lp.rc2ac(k, r0))
+    Rin = R if cplx else np.real(R)
+    fns = [("rc2poly", k, lambda v: lp.rc2poly(v, r0), True),
+           ("rc2ac", k, lambda v: lp.rc2ac(v, r0), True),
+           ("poly2rc", a, lambda v: lp.poly2rc(v, e), True),
+           ("poly2ac", a, lambda v: lp.poly2ac(v, e), True),
+           ("ac2poly", Rin, lp.ac2poly, True),
+           ("ac2rc", Rin, lp.ac2rc, True)]
+    if not cplx:
+        g = np.asarray(lp.rc2lar(k))
+        s = np.asarray(lp.rc2is(k))
+        fns += [("rc2lar", k, lp.rc2lar, False), ("lar2rc", g, lp.lar2rc, False),
+                ("rc2is", k, lp.rc2is, False), ("is2rc", s, lp.is2rc, False)]
+        lsf = np.asarray(lp.poly2lsf(a))
+        fns += [("poly2lsf", a, lp.poly2lsf, False), ("lsf2poly", lsf, lp.lsf2poly, False)]
+    for name, x, fn, complex_ok in fns:
+        x = np.array(x)
+        ref_cache = {}
+        for form, obj, base, single in _forms_of(x):
+            if form == "complex" and not complex_ok:
+                continue                    # log-area ratios / inverse sine / LSF are defined for real arguments only
+            if single and (cnd > 1e2 or name in ("poly2lsf", "lsf2poly")):
+                continue
+            keep = list(obj) if isinstance(obj, list) else obj.copy()
+            try:
+                got = _outs(fn(obj))
+                kb = base.tobytes()
+                if kb not in ref_cache:
+                    ref_cache[kb] = _outs(fn(base.copy()))
+                ref = ref_cache[kb]
+            except Exception as ex:
+                out.append("%s raised %r on the %s form of an admissible input (order %d)" % (name, ex, form, len(k)))
+                continue
+            t = tol32 if single else tolf
+            if name in ("poly2lsf", "lsf2poly"):
+                t = 1e-9
+            if len(got) != len(ref) or any(not rel(u, v) <= t for u, v in zip(got, ref)):
+                out.append("%s(%s form) != %s(ndarray) (order %d): %s" % (
+                    name, form, name, len(k), ["%.2e" % rel(u, v) for u, v in zip(got, ref)] if len(got) == len(ref) else "lengths"))
+            same = (obj == keep) if isinstance(obj, list) else (obj.dtype == keep.dtype and np.array_equal(obj, keep))
+            if not same:
+                out.append("%s modified its input (%s form)" % (name, form))
+    # zero-lag forms: default (the polynomial does not depend on it), Python int, the complex scalar returned by ac2rc
+    ad = np.asarray(lp.rc2poly(k)[0])
+    if not rel(c(ad), c(a)) <= 1e-14:
+        out.append("rc2poly(k) without r0 returns another polynomial than rc2poly(k, r0): %.2e" % rel(c(ad), c(a)))
+    if float(r0) == int(r0):
+        ai, ei = lp.rc2poly(k, int(r0))
+        Ri = lp.rc2ac(k, int(r0))
+        if not (rel(c(ai), c(a)) <= tolf and abs(ei - e) <= 1e-12 * abs(e) and rel(c(Ri), c(R)) <= tolf):
+            out.append("rc2poly / rc2ac with an integer r0 differ from the float r0 call")
+    try:
+        if not cplx:
+            # the autocorrelation exactly as rc2ac returns it (complex dtype, zero imaginary parts), without np.real
+            a2, e2 = lp.ac2poly(Rin)
+            k3, r03 = lp.ac2rc(Rin)
+            a2c, e2c = lp.ac2poly(R)
+            k3c, r03c = lp.ac2rc(R)
+            if not (rel(c(a2c), c(a2)) <= tolf and abs(e2c - e2) <= tolf * abs(e2)):
+                out.append("ac2poly(rc2ac(k)) on the returned complex array != ac2poly on its real part")
+            if not (rel(c(a2c), c(a)) <= tol and abs(e2c - e) <= tol * abs(e)):
+                out.append("ac2poly(rc2ac(k)) on the returned complex array != rc2poly(k) (order %d): %.2e" % (len(k), rel(c(a2c), c(a))))
+            if not (rel(c(k3c), c(k3)) <= tolf and rel(c(k3c), c(k)) <= tol and abs(r03c - r0) <= tol * r0):
+                out.append("ac2rc(rc2ac(k)) on the returned complex array != (k, r0)")
+        else:
+            k3c, r03c = lp.ac2rc(R)
+            a2c, e2c = lp.ac2poly(R)
+        # the zero lag as ac2rc returns it (complex scalar for a complex-dtype autocorrelation) fed back
+        Rb = np.asarray(lp.rc2ac(k3c, r03c))
+        if not rel(c(Rb), c(R)) <= tol:
+            out.append("rc2ac(*ac2rc(R)) != R (order %d): %.2e" % (len(k), rel(c(Rb), c(R))))
+        ab, eb = lp.rc2poly(k3c, r03c)
+        if not (rel(c(ab), c(a2c)) <= 1e-12 and abs(eb - e2c) <= 1e-12 * abs(e2c)):
+            out.append("rc2poly(*ac2rc(R)) != ac2poly(R)")
+    except Exception as ex:
+        out.append("complex-dtype autocorrelation / zero lag: raised %r (order %d)" % (ex, len(k)))
+    return out
+
+
+# --- polynomial <- LSF -> polynomial on independent angle vectors ------------------------------------------
+
+def oracle_lsfinv(p):
+    lp = _lp()
+    w = np.asarray(p["lsf"], dtype=float)
+    n = len(w)
+    out = []
+    try:
+        a = np.asarray(lp.lsf2poly(w))
+    except Exception as ex:
+        return ["lsf2poly raised %r on increasing angles inside (0, pi)" % (ex,)]
+    if a.shape != (n + 1,) or a[0] != 1 or not np.isrealobj(a):
+        return ["lsf2poly: wrong length, leading coefficient or dtype (%s, %s)" % (a.shape, a.dtype)]
+    aref = _ref_lsf2poly(w)
+    if not rel(a, aref) <= 1e-10:
+        out.append("lsf2poly(w) != (P1 + Q1)/2 built from the quadratic factors (order %d): %.2e" % (n, rel(a, aref)))
+    d = _lsf_definition(a, w)
+    if not d <= LSF_DEF_TOL:
+        out.append("the sum / difference polynomials of lsf2poly(w) do not vanish alternately at e^{i w_j} (order %d): %.2e" % (n, d))
+    if not np.max(np.abs(np.roots(a))) < 1:
+        out.append("lsf2poly(w) is not minimum phase (order %d)" % n)
+    try:
+        w2 = np.asarray(lp.poly2lsf(a))
+    except Exception as ex:
+        out.append("poly2lsf raised %r on lsf2poly(w), order %d" % (ex, n))
+        return out
+    if w2.shape != (n,):
+        out.append("poly2lsf(lsf2poly(w)) has %d entries for order %d" % (w2.size, n))
+    else:
+        if not (np.all(np.diff(w2) > 0) and w2.min() > 0 and w2.max() < np.pi):
+            out.append("poly2lsf(lsf2poly(w)) not strictly increasing inside (0, pi)")
+        if not rel(w2, w) <= 1e-8:
+            out.append("poly2lsf(lsf2poly(w)) != w (order %d): %.2e" % (n, rel(w2, w)))
+    for form, obj, base, single in _forms_of(w):
+        if single or form == "complex":
+            continue
+        keep = list(obj) if isinstance(obj, list) else obj.copy()
+        try:
+            af = np.asarray(lp.lsf2poly(obj))
+            if not rel(c(af), c(a)) <= 1e-12:
+                out.append("lsf2poly(%s form) != lsf2poly(ndarray): %.2e" % (form, rel(c(af), c(a))))
+        except Exception as ex:
+            out.append("lsf2poly raised %r on the %s form" % (ex, form))
+        if not ((obj == keep) if isinstance(obj, list) else np.array_equal(obj, keep)):
+            out.append("lsf2poly modified its input (%s form)" % form)
+    return out
+
+
+# --- integer autocorrelations -----------------------------------------------------------------------------
+
+def _toeplitz_ref(R):
+    """(a, e, k) of a real autocorrelation by numpy.linalg.solve on the normal equations of every order"""
+    R = np.asarray(R, dtype=float)
+    n = len(R) - 1
+    ks = []
+    a = np.array([1.0])
+    for m in range(1, n + 1):
+        T = np.array([[R[abs(i - j)] for j in range(m)] for i in range(m)])
+        am = np.linalg.solve(T, -R[1:m + 1])
+        ks.append(am[-1])
+        a = np.concatenate(([1.0], am))
+    e = R[0] + float(np.dot(R[1:], a[1:]))
+    return a, e, np.array(ks)
+
+
+def oracle_acint(p):
+    lp = _lp()
+    Ri = np.asarray(p["R"])
+    out = []
+    aref, eref, kref = _toeplitz_ref(Ri)
+    tol = _tol(kref)
+    forms = [("int64 array", Ri.astype(np.int64)), ("int32 array", Ri.astype(np.int32)), ("list of int", [int(v) for v in Ri]),
+             ("float array", Ri.astype(float))]
+    for name, obj in forms:
+        keep = list(obj) if isinstance(obj, list) else obj.copy()
+        try:
+            a, e = lp.ac2poly(obj)
+            kk, r0 = lp.ac2rc(obj)
+            if not (rel(c(a), c(aref)) <= tol and abs(e - eref) <= tol * abs(eref)):
+                out.append("ac2poly(%s) != solution of the normal equations: %.2e, e %r vs %r" % (name, rel(c(a), c(aref)), e, eref))
+            if not (rel(c(kk), c(kref)) <= tol and r0 == Ri[0]):
+                out.append("ac2rc(%s) != reflection coefficients of the normal equations / R[0]: %.2e" % (name, rel(c(kk), c(kref))))
+            Rb = lp.poly2ac(a, e)
+            if not rel(c(Rb), c(Ri)) <= tol:
+                out.append("poly2ac(ac2poly(%s)) != R: %.2e" % (name, rel(c(Rb), c(Ri))))
+            Rc = lp.rc2ac(kk, r0)                   # r0 is an integer scalar for integer input
+            if not rel(c(Rc), c(Ri)) <= tol:
+                out.append("rc2ac(*ac2rc(%s)) != R: %.2e" % (name, rel(c(Rc), c(Ri))))
+            a4, e4 = lp.rc2poly(kk, r0)
+            if not (rel(c(a4), c(a)) <= 1e-12 and abs(e4 - e) <= 1e-12 * abs(e)):
+                out.append("rc2poly(*ac2rc(%s)) != ac2poly: %.2e" % (name, rel(c(a4), c(a))))
+        except Exception as ex:
+            out.append("raised %r on a positive-definite integer autocorrelation given as %s" % (ex, name))
+        same = (obj == keep) if isinstance(obj, list) else (obj.dtype == keep.dtype and np.array_equal(obj, keep))
+        if not same:
+            out.append("ac2poly / ac2rc modified their input (%s)" % name)
     return out
 
 
@@ -212,7 +589,18 @@ def _key(p):
 
 def _tags(p):
     k = np.asarray(p["k"])
-    return ["complex" if np.iscomplexobj(k) else "real", "order:%d" % len(k)]
+    t = ["complex" if np.iscomplexobj(k) else "real", "order:%d" % len(k)]
+    if in_domain(k):
+        t.append("r0/e:1e%d" % int(np.floor(np.log10(_cond(k)) + 1e-12)))
+    return t
+
+
+def _tags_laws(p):
+    # generated parameter sets that fail the conditioning predicate are counted here (once: only the `laws` case carries the number)
+    t = _tags(p) + ["cond-dropped"] * int(p.get("ndrop", 0))
+    if p.get("family"):
+        t.append("family:" + p["family"])
+    return t
 
 
 def _mk(kind, impl, model, post=None):
@@ -230,12 +618,23 @@ KINDS = {
     "rc2ac": _mk("rc2ac", impl_rc2ac, model_rc2ac),
     "ac2poly": _mk("ac2poly", impl_ac2poly, model_ac2poly, post_ac2poly),
     "levdown": _mk("levdown", impl_levdown, model_levdown, post_lead1),
-    "laws": {"oracle": oracle_all, "key": _key, "tags": _tags, "nontrivial": lambda p: len(p["k"]) >= 2},
+    "laws": {"oracle": oracle_all, "key": _key, "tags": _tags_laws, "nontrivial": lambda p: len(p["k"]) >= 2},
+    "forms": {"oracle": oracle_forms, "key": _key, "tags": _tags, "nontrivial": lambda p: len(p["k"]) >= 2},
 }
 KINDS["ac2poly"]["rtol"] = 1e-7
+# the conditioned conversions at r0/e in (10^(N-1), 10^N]: same correspondence, tolerance 1e-11 * 10^N (ac2poly: 1e-10 * 10^N)
+for _b in COND_KINDS:
+    for _n in range(3, 9):
+        KINDS["%s@c%d" % (_b, _n)] = dict(KINDS[_b], rtol=max(KINDS[_b]["rtol"], (1e-10 if _b == "ac2poly" else 1e-11) * 10.0 ** _n))
 KINDS["lsf"] = {"impl": impl_lsf, "model": model_lsf, "rtol": 1e-9, "atol": 1e-12,
                 "key": lambda p: "lsf|%d|%d" % (len(p["lsf"]), hash(np.asarray(p["lsf"]).tobytes()) & 0xFFFFFF),
                 "tags": lambda p: ["lsf", "order:%d" % len(p["lsf"])], "nontrivial": lambda p: len(p["lsf"]) >= 2}
+KINDS["lsfinv"] = {"oracle": oracle_lsfinv, "key": KINDS["lsf"]["key"],
+                   "tags": lambda p: ["lsfinv", "order:%d" % len(p["lsf"])] + ["lsfinv-dropped"] * int(p.get("ndrop", 0)),
+                   "nontrivial": lambda p: len(p["lsf"]) >= 2}
+KINDS["acint"] = {"oracle": oracle_acint,
+                  "key": lambda p: "acint|" + ",".join(str(int(v)) for v in p["R"]),
+                  "tags": lambda p: ["acint", "order:%d" % (len(p["R"]) - 1)], "nontrivial": lambda p: len(p["R"]) >= 3}
 
 
 def gen_k(nrng, order, cplx):
@@ -250,35 +649,148 @@ def gen_k(nrng, order, cplx):
     return k
 
 
+def gen_k_large(nrng, order, cplx):
+    """every modulus in [0.625, 0.97]: small final error, the conditioning predicate rejects a share of these at the higher orders"""
+    mag = nrng.integers(40, 63, order).astype(float) / 64.0
+    if not cplx:
+        return mag * (nrng.integers(0, 2, order) * 2 - 1)
+    # directions with dyadic coordinates on the max-norm unit square, scaled so that the modulus is `mag` up to rounding
+    re = nrng.integers(-8, 9, order).astype(float)
+    im = nrng.integers(-8, 9, order).astype(float)
+    re[(re == 0) & (im == 0)] = 1.0
+    k = mag * (re + 1j * im) / np.abs(re + 1j * im)
+    k[np.abs(k) > 0.98] *= 0.98 / 0.981
+    return k
+
+
+def gen_lsf(nrng, order):
+    """sorted angles in (0.02, pi - 0.02), gaps >= 1e-3, whose polynomial is inside the reflection-coefficient domain; None otherwise"""
+    w = np.sort(nrng.uniform(0.02, np.pi - 0.02, order))
+    if order > 1 and np.min(np.diff(w)) < 1e-3:
+        return None
+    kk = _ref_stepdown(_ref_lsf2poly(w))
+    if kk is None or not in_domain(kk):
+        return None
+    return w
+
+
+def gen_acint(nrng, order):
+    """integer autocorrelation R[0..order], positive definite, reflection coefficients inside the domain; None otherwise"""
+    tail = nrng.integers(-4, 5, order)
+    s = int(np.sum(np.abs(tail)))
+    R = np.concatenate(([int(nrng.integers(max(1, s // 2), 2 * s + 3))], tail)).astype(np.int64)
+    T = np.array([[float(R[abs(i - j)]) for j in range(order + 1)] for i in range(order + 1)])
+    if np.min(np.linalg.eigvalsh(T)) < 0.02 * R[0]:
+        return None
+    kk = _toeplitz_ref(R)[2]
+    if not in_domain(kk):
+        return None
+    return R
+
+
 def gen(rng, nrng, tier):
-    n = 90 if tier == "quick" else 1500
+    quick = tier == "quick"
+    n = 90 if quick else 1500
     kinds = ["rc2poly", "poly2rc", "poly2ac", "rc2ac", "ac2poly", "levdown"]
+    ndrop = 0
     for i in range(n):
         cplx = bool(i % 2)
         order = 1 + (i % 16) if i < 64 else int(nrng.integers(1, 17))
-        k = gen_k(nrng, order, cplx)
-        if order > 8:
-            k = k * 0.75
+        large = i % 5 == 3
+        k = gen_k_large(nrng, order, cplx) if large else gen_k(nrng, order, cplx)
         r0 = float(nrng.integers(1, 9)) / 2.0
         if i % 9 == 4:
             r0 = [1e-15, 1e-12, 1e12, 2.0 ** -60][(i // 9) % 4]   # conversions are homogeneous in the power level
+        if not in_domain(k):
+            ndrop += 1          # generated freely, filtered by the conditioning predicate e/r0 >= 1e-8; counted in `cond-dropped`
+            continue
         p = {"k": k, "r0": r0}
-        yield ("laws", p)
-        yield (kinds[i % len(kinds)], p)
-        yield (kinds[(i + 3) % len(kinds)], p)
-        if not cplx and order <= 12:
+        yield ("laws", dict(p, ndrop=ndrop, family="large" if large else "uniform"))
+        ndrop = 0
+        if quick or (i // 2) % 2 == 0:
+            yield ("forms", p)
+        yield (_cls(kinds[i % len(kinds)], k), p)
+        yield (_cls(kinds[(i + 3) % len(kinds)], k), p)
+        if not cplx:
             a, e = _lp().rc2poly(k, r0)
             yield ("lsf", {"lsf": np.asarray(_lp().poly2lsf(np.asarray(a))), "k": k, "r0": r0})
+    if ndrop:
+        # drops after the last accepted set: carried by a fixed well-conditioned case
+        yield ("laws", {"k": np.array([0.5, -0.25]), "r0": 1.0, "ndrop": ndrop, "family": "uniform"})
+    # extreme patterns inside the domain: constant modulus v, signs all +, all -, alternating, at every order with
+    # (1 - v^2)^order >= 1e-8 (orders 1..8 for v = 15/16, 1..6 for v = 31/32); real, and complex v * sign * e^{i theta}
+    j = 0
+    for v in (0.9375, 0.96875):
+        for order in range(1, 17):
+            if (1.0 - v * v) ** order < 1.0 / COND_MAX:
+                continue
+            for sname, sgn in (("+", np.ones(order)), ("-", -np.ones(order)), ("alt", (-1.0) ** np.arange(order))):
+                for cplx in (False, True):
+                    if cplx:
+                        # theta: exactly pi/2 (k = i v sign, exact) for a third of the patterns, random otherwise
+                        ph = 1j if j % 3 == 0 else np.exp(1j * float(nrng.uniform(0.0, 2 * np.pi)))
+                        k = v * sgn * ph
+                        k = k * min(1.0, 0.98 / float(np.max(np.abs(k))))
+                    else:
+                        k = v * sgn
+                    j += 1
+                    if not in_domain(k):
+                        continue            # (rounding of |e^{i theta}| at the edge of the predicate)
+                    p = {"k": k, "r0": [2.0, 1.0, 0.5, 3.0][(j // 2) % 4]}
+                    yield ("laws", dict(p, family="const-modulus"))
+                    yield ("forms", p)
+                    if quick and (j // 2) % 3:
+                        continue
+                    yield (_cls(kinds[(j // 2) % len(kinds)], k), p)
+                    yield (_cls(kinds[(j // 2 + 3) % len(kinds)], k), p)
     # parameter sets with reflection coefficients that are exactly zero (last, first, interior, several): the polynomial then has
-    # exactly-zero coefficients, which are coefficients like any other
-    for i in range(12 if tier == "quick" else 120):
+    # exactly-zero coefficients, which are coefficients like any other; real and complex
+    for i in range(12 if quick else 120):
         order = 2 + i % 6
         k = gen_k(nrng, order, False)
         k[np.abs(k) < 1e-9] = 0.25
         for pos in [[order - 1], [0], [order // 2], [order - 1, order - 2]][i % 4]:
             k[pos] = 0.0
         p = {"k": k, "r0": 1.0 + (i % 3)}
-        yield ("laws", p)
-        yield (kinds[i % len(kinds)], p)
-        a, e = _lp().rc2poly(k, p["r0"])
-        yield ("lsf", {"lsf": np.asarray(_lp().poly2lsf(np.asarray(a))), "k": k, "r0": p["r0"]})
+        if in_domain(k):
+            yield ("laws", dict(p, family="zeros"))
+            yield ("forms", p)
+            yield (_cls(kinds[i % len(kinds)], k), p)
+            a, e = _lp().rc2poly(k, p["r0"])
+            yield ("lsf", {"lsf": np.asarray(_lp().poly2lsf(np.asarray(a))), "k": k, "r0": p["r0"]})
+        kc = gen_k(nrng, order, True)
+        kc[np.abs(kc) < 1e-9] = 0.25 - 0.5j
+        for pos in [[order - 1], [0], [order // 2], [order - 1, order - 2]][(i // 2) % 4]:
+            kc[pos] = 0.0
+        pc = {"k": kc, "r0": 1.0 + (i % 3)}
+        if in_domain(kc):
+            yield ("laws", dict(pc, family="zeros"))
+            yield ("forms", pc)
+            yield (_cls(kinds[(i // 4) % len(kinds)], kc), pc)
+    # all reflection coefficients zero (white noise: a = [1, 0, ..], R = [r0, 0, ..]), order 1..16, real and complex dtype
+    for order in range(1, 17):
+        for cplx in (False, True):
+            if quick and (order + cplx) % 3:
+                continue
+            p = {"k": np.zeros(order, dtype=complex if cplx else float), "r0": [1.0, 2.0, 0.5][order % 3]}
+            yield ("laws", dict(p, family="all-zero"))
+            yield ("forms", p)
+            yield (kinds[order % len(kinds)], p)
+    # polynomial <- LSF: independent increasing angle vectors (not produced by poly2lsf), orders 1..16 (both parities)
+    ndrop = 0
+    for i in range(48 if quick else 400):
+        order = 1 + i % 16
+        w = gen_lsf(nrng, order)
+        if w is None:
+            ndrop += 1
+            continue
+        yield ("lsfinv", {"lsf": w, "ndrop": ndrop})
+        ndrop = 0
+        yield ("lsf", {"lsf": w})
+    # integer-dtype autocorrelations (the documentation example of this kind first)
+    yield ("acint", {"R": np.array([8, 4, 2, 1, 3])})
+    yield ("acint", {"R": np.array([5, -2, 1])})
+    for i in range(10 if quick else 100):
+        R = gen_acint(nrng, 1 + i % 8)
+        if R is not None:
+            yield ("acint", {"R": R})
